@@ -68,6 +68,28 @@ def build_pool(ctx, n_real, n_synth):
     damaged.append({'id': 'u:undefined-33', 'hex': O.mk_message([1001, 63255, 1002], 16, 33).hex(), 'kind': 'undefined'})
     damaged.append({'id': 'u:undefined-seq-13', 'hex': O.mk_message([399999], 16, 13).hex(), 'kind': 'undefined'})
     damaged.append({'id': 'u:delayed-at-end-25', 'hex': O.mk_message([1001, 101000], 16, 25).hex(), 'kind': 'undefined'})
+    # messages that leave walker registers "dirty" at their end (open 204, concluded 203 with new
+    # reference values, open 201/202/207/208, a defined bitmap), each followed in the pool by
+    # small victims that would see a leaked register
+    for name, ids, pat in [
+            ('open-204', [204008, 31021, 1001, 12001], True), ('concluded-203', [203010, 7001, 12001, 203255], True),
+            ('open-201-202', [201132, 202129, 12001, 7001], True), ('open-207', [207002, 12001, 7001], True),
+            ('open-208', [208002, 1015, 1001], True), ('open-221', [221002, 1001, 12001], True),
+            ('bitmap', [1001, 12001, 222000, 236000, 101002, 31031, 1031, 1032, 101002, 33007], False),
+            ('victim-a', [7001, 12001, 1001], True), ('victim-b', [1001, 1015, 7001, 12001], True),
+            ('victim-c', [1001, 12001, 222000, 237000, 1031, 1032, 101002, 33007], False),
+            # the same operator with different operands in the same table group (cached descriptors)
+            ('op-201-a', [201132, 12001, 201000, 7001], True), ('op-201-b', [201130, 12001, 201000, 7001], True),
+            ('op-202-a', [202129, 12001, 202000, 7001], True), ('op-202-b', [202130, 12001, 202000, 7001], True),
+            ('op-207-a', [207001, 12001, 207000, 7001], True), ('op-207-b', [207002, 12001, 207000, 7001], True),
+            ('op-208-a', [208002, 1015, 208000, 1001], True), ('op-208-b', [208003, 1015, 208000, 1001], True),
+            ('fixed-rep-a', [101002, 12001, 7001], True), ('fixed-rep-b', [101003, 12001, 7001], True),
+            ('seq-a', [301011, 12001], True), ('seq-b', [301012, 301011, 12001], True),
+            # a Table D sequence containing 102002 / 102003, and a template using the same replication
+            # descriptor with other members (replication descriptors must not be shared objects)
+            ('alias2-a', [302040, 12001], True), ('alias2-b', [102002, 12001, 7001, 1001], True),
+            ('alias3-a', [302047, 12001], True), ('alias3-b', [102003, 12001, 7001, 1001], True)]:
+        damaged.append({'id': 'r:' + name, 'hex': O.mk_message(ids, 64, 33, pattern=pat).hex(), 'kind': 'register'})
     # synthetic messages: version x local table x template
     synth = []
     versions = sorted(int(os.path.basename(p)) for p in glob.glob(os.path.join(lib.REPO, 'pybufrkit', 'tables', '0', '0_0', '*'))
@@ -119,7 +141,18 @@ def gen_history(rng, item_ids, n_ops, limit, refs):
         r = rng.random()
         it = rng.choice(item_ids)
         slot = rng.randrange(len(CACHE_MAXES))
-        if r < 0.50:
+        pairs = [(a, a[:-1] + 'b') for a in item_ids if a.startswith('r:') and a.endswith('-a') and a[:-1] + 'b' in item_ids]
+        if r < 0.12 and pairs:
+            # two messages of the SAME table group differing in one descriptor, back to back (either
+            # order): what a shared cached descriptor object would leak from one into the other
+            a, b = rng.choice(pairs)
+            if rng.random() < 0.5:
+                a, b = b, a
+            ops.append({'op': 'decode', 'item': a, 'slot': slot})
+            ops.append({'op': 'decode', 'item': b, 'slot': rng.randrange(len(CACHE_MAXES))})
+            ops.append({'op': 'decode+observe', 'item': a, 'slot': rng.randrange(len(CACHE_MAXES)),
+                        'seq': [rng.choice(['values', 'nested', 'query', 'flat'])]})
+        elif r < 0.50:
             ops.append({'op': 'decode', 'item': it, 'slot': slot})
         elif r < 0.70:
             seq = [rng.choice(list(O.RENDER_KINDS) + ['query', 'values']) for _ in range(rng.randrange(1, 5))]
@@ -264,7 +297,7 @@ def run(ctx):
     all_ids = list(pool)
     plans = []
     if ctx.quick:
-        plans = [(1, 40, small_ids), (2, 40, small_ids), (3, 40, small_ids), (real_limit, 70, [it['id'] for it in synth] + small_ids[:6])]
+        plans = [(1, 40, small_ids), (2, 40, small_ids), (3, 40, small_ids), (real_limit, 90, [it['id'] for it in synth[:8]] + [it['id'] for it in damaged] + small_ids[:6])]
     else:
         for rep in range(6):
             for L in (1, 2, 3):
